@@ -103,6 +103,11 @@ def run_schema(S, tier, seed, configs, wd, extra_cfg="", machine="view", shapes_
         m = S["messages"][mi - 1]
         nl = count_levels(m)
         shapes = choose_shapes(nl, k, random.Random("%s-%s-%d" % (seed, name, mi)))
+        if machine == "cursor" and tier == "quick" and nl >= 4 and len(shapes) >= 6:
+            # every (instance, landmark, member, wrapper) is a transition: deep messages get three of the
+            # canonical shapes in the quick tier (full counts with mixed extensions, one entry with long
+            # extensions, full counts under the compiled geometry); the thorough tier keeps them all
+            shapes = [shapes[5], shapes[3], shapes[0]]
         body = "SDef == %s\nShapesDef == {%s}\n" % (stla, ",\n ".join(shape_tla(*s) for s in shapes))
         cfg = "CONSTANT S <- SDef\nCONSTANT MI = %d\nCONSTANT Shapes <- ShapesDef\nCONSTANT Margin = 8\nINIT %s\nNEXT %s\n" % (mi, init, nxt)
         cfg += "".join("INVARIANT %s\n" % i for i in invs)
